@@ -14,6 +14,7 @@ pub mod c09;
 pub mod c10;
 pub mod c12;
 pub mod c13;
+pub mod c14;
 pub mod c17;
 pub mod util;
 
@@ -44,6 +45,7 @@ pub fn scenario(name: &str) -> Option<Scenario> {
         "c12_hotspot" => c12::c12_hotspot,
         "c12_iso_sys" => c12::c12_iso_sys,
         "c13_chain" => c13::c13_chain,
+        "c14_shared_node" => c14::c14_shared_node,
         "c17_geometry" => c17::c17_geometry,
         "c17_threads" => c17::c17_threads,
         _ => return None,
